@@ -147,7 +147,10 @@ func (s *objectStore) flush(db *DB) (err error) {
 }
 
 type DB struct {
-	l       sync.RWMutex
+	l sync.RWMutex
+	// protects schemas table and flusher bookkeeping, which
+	// are modified by calls holding only the read lock
+	sl      sync.Mutex
 	ctx     context.Context
 	cancel  context.CancelFunc
 	root    string
@@ -241,9 +244,8 @@ func (db *DB) startAsyncWritesRoutine(s *Schema) {
 		s.AsyncWrites.routineStarted = true
 		go func() {
 			for db.ctx.Err() == nil {
-				for slept := time.Duration(0); ; slept += step {
-					n := db.safeCountPendingAsyncW(s.object)
-					if n >= s.AsyncWrites.Threshold || slept >= s.AsyncWrites.Timeout {
+				for slept := time.Duration(0); db.ctx.Err() == nil; slept += step {
+					if db.mustFlushAsyncW(s, slept) {
 						// enter critical section
 						db.Lock()
 						// checking db.ctx not to race with db.Close function
@@ -263,14 +265,24 @@ func (db *DB) startAsyncWritesRoutine(s *Schema) {
 	}
 }
 
-func (db *DB) safeCountPendingAsyncW(of Object) (n int) {
+// mustFlushAsyncW reads asynchronous writes settings under the
+// lock as those may be changed at any time by Create
+func (db *DB) mustFlushAsyncW(s *Schema, slept time.Duration) bool {
 	db.RLock()
 	defer db.RUnlock()
-	return db.asyncw.count(of)
+
+	if !s.asyncWritesEnabled() {
+		return false
+	}
+
+	return db.asyncw.count(s.object) >= s.AsyncWrites.Threshold || slept >= s.AsyncWrites.Timeout
 }
 
 func (db *DB) schema(of Object) (s *Schema, err error) {
 	var ok bool
+
+	db.sl.Lock()
+	defer db.sl.Unlock()
 
 	if s, ok = db.schemas[stype(of)]; ok {
 		db.startAsyncWritesRoutine(s)
